@@ -275,6 +275,27 @@ Proof.
       * exfalso. exact (Dj c (or_intror (emb_ids_incl _ _ E1 c Ha)) Hc).
 Qed.
 
+(* replacing a child list by a sub-forest of it gives a sub-forest of the whole *)
+Lemma emb_cons_same t a b : emb a b -> emb (t :: a) (t :: b).
+Proof. intros E. destruct t as [id i ch]. apply emb_keep; [apply emb_refl|exact E]. Qed.
+
+Lemma upd_at_emb_of n g l : (forall ch, emb (g ch) ch) ->
+  Forall (fun t => forall a b, emb a b -> emb (upd_at n g t :: a) (t :: b)) l -> emb (map (upd_at n g) l) l.
+Proof.
+  intros Hg. induction 1 as [|x l Hx _ IH]; [constructor|]. cbn [map]. apply Hx. exact IH.
+Qed.
+
+Lemma upd_at_emb_t n g : (forall ch, emb (g ch) ch) -> forall t a b, emb a b -> emb (upd_at n g t :: a) (t :: b).
+Proof.
+  intros Hg. induction t as [id i ch IH] using rt_ind'. intros a b E. cbn [upd_at].
+  destruct (Nat.eqb id n); apply emb_keep; try exact E; [apply Hg|exact (upd_at_emb_of n g ch Hg IH)].
+Qed.
+
+Lemma upd_at_emb n g f : (forall ch, emb (g ch) ch) -> emb (map (upd_at n g) f) f.
+Proof.
+  intros Hg. apply upd_at_emb_of; [exact Hg|]. apply Forall_forall. intros t _. apply upd_at_emb_t. exact Hg.
+Qed.
+
 Section P.
 Variable v : nat -> verdict.
 
@@ -1506,6 +1527,17 @@ Theorem branch_inplace_nodes n f t : NoDup (ids f) -> In t (pre_f f) -> rid t = 
 Proof.
   intros ND Ht Hn m. rewrite (branch_inplace_is_F n f ND), (upd_at_ids n (F v) f t ND Ht Hn m).
   rewrite (F_ids_kept (rch t) (NoDup_ids_children f t ND Ht) m). reflexivity.
+Qed.
+
+(* the tree after Node.filter is an order- and ancestry-preserving sub-forest of the tree before, every node once *)
+Theorem branch_inplace_wf n f : NoDup (ids f) ->
+  emb (map (upd_at n (filter_inplace v)) f) f /\
+  sublist (ids (map (upd_at n (filter_inplace v)) f)) (ids f) /\
+  NoDup (ids (map (upd_at n (filter_inplace v)) f)).
+Proof.
+  intros ND. rewrite (branch_inplace_is_F n f ND).
+  assert (E : emb (map (upd_at n (F v)) f) f) by (apply upd_at_emb; intros ch; apply F_emb).
+  refine (conj E (conj (emb_ids _ _ E) _)). exact (sublist_NoDup _ _ (emb_ids _ _ E) ND).
 Qed.
 
 (* Node.filtered / Node.copy(predicate=): the start node on top of the filtered copy of its children *)
